@@ -47,15 +47,16 @@ Proof.
     + intros _. reflexivity.
   - intros t m Hu Hf. split; [exact Hu | intros _; reflexivity].
   - intros m H; exact H.
-  - intros _ t p m H; exact H.
-  - intros _ t p b m [[H1 [H2 H3]] H4]. destruct (c_idem c && fresh_pass m && is_data m) eqn:Ec.
-    + split; [intros _; reflexivity | intros _; reflexivity].
-    + split; [exact H1|]. intros Hd. rewrite Hi, Hd, andb_true_r in Ec. cbn [andb] in Ec. apply H3; assumption.
-  - intros _ t p b m sq [[H1 [H2 H3]] H4] _. destruct (c_idem c && fresh_pass m && is_data m && negb (m_hasseq m)) eqn:Ec.
-    + split; [intros _; reflexivity | intros _; reflexivity].
-    + split; [exact H1|]. intros Hd. rewrite Hi, Hd in Ec. cbn [andb] in Ec. rewrite andb_true_r in Ec.
-      destruct (m_hasseq m); [reflexivity|]. rewrite andb_true_r in Ec. apply H3; assumption.
-  - intros _ t p b r. split; (split; [intros H; discriminate | intros H; discriminate]).
+  - intros _. constructor; cbn [PE PQ PL PB].
+    + intros t p m H; exact H.
+    + intros t p b m [[H1 [H2 H3]] H4]. destruct (c_idem c && fresh_pass m && is_data m) eqn:Ec.
+      * split; [intros _; reflexivity | intros _; reflexivity].
+      * split; [exact H1|]. intros Hd. rewrite Hi, Hd, andb_true_r in Ec. cbn [andb] in Ec. apply H3; assumption.
+    + intros t p b m sq [[H1 [H2 H3]] H4] _. destruct (c_idem c && fresh_pass m && is_data m && negb (m_hasseq m)) eqn:Ec.
+      * split; [intros _; reflexivity | intros _; reflexivity].
+      * split; [exact H1|]. intros Hd. rewrite Hi, Hd in Ec. cbn [andb] in Ec. rewrite andb_true_r in Ec.
+        destruct (m_hasseq m); [reflexivity|]. rewrite andb_true_r in Ec. apply H3; assumption.
+    + intros t p b r. split; (split; [intros H; discriminate | intros H; discriminate]).
   - intros b m H; exact H.
   - intros b m [H1 H2]. split; [exact H1 | split; [intros _; reflexivity | intros Hd _; apply H2, Hd]].
   - intros m [H1 H2]. split; [exact H1 | split; [intros _; reflexivity | intros Hd _; apply H2, Hd]].
@@ -299,7 +300,6 @@ Proof.
       split; [exact H1 | constructor; [exact Hl | apply nolab_ok, H2]].
   - pose proof (handle_response_lab st sent r Hl) as K1.
     pose proof (nolab_handle_response E st sent r) as N1.
-    pose proof (handle_response_okP (mkPreds (fun _ _ => True) (fun _ _ => True) (fun _ => True)) c E (fun _ => 0)) as _.
     assert (Kw : b_wait (fst (handle_response c E st sent r)) = b_wait st).
     { unfold handle_response. destruct r as [e [|]| |bl].
       - destruct (set_empty (b_buf st)); reflexivity.
@@ -451,7 +451,7 @@ Proof.
   assert (F2 : forall (X Y Z : msg -> Prop) l, Forall X l -> Forall Y l -> (forall m, X m -> Y m -> Z m) -> Forall Z l).
   { intros X Y Z l HX HY HZ. rewrite Forall_forall in *. intros m Hm. apply HZ; auto. }
   constructor.
-  - intros d. eapply F2; [apply A1 | apply B1 | apply Hq].
+  - intros d l Hin. eapply F2; [eapply A1, Hin | eapply B1, Hin | apply Hq].
   - intros k x Hk. eapply F2; [eapply A2, Hk | eapply B2, Hk | apply Hl].
   - rewrite Forall_forall in *. intros x Hx. eapply F2; [apply A3, Hx | apply B3, Hx | apply Hb].
   - rewrite Forall_forall in *. intros x Hx. eapply F2; [apply A4, Hx | apply B4, Hx | apply Hb].
@@ -462,7 +462,7 @@ Lemma einv_step s ch : einv s -> (g_epoch (step c s ch) <> g_epoch s -> no_stamp
 Proof.
   intros [Hp Hl] Hk.
   assert (Hp' : places_ok (PE (g_epoch s)) (step c s ch)).
-  { apply (step_places _ True); [exact Hp | apply transfers_PE, Hidem | intros; exact I | intros x _; apply PE_submit | apply PE_shutdown]. }
+  { apply (step_places _ True); [exact Hp | apply transfers_PE, Hidem | intros; exact I | intros x _ _; apply PE_submit | apply PE_shutdown]. }
   destruct (Z.eq_dec (g_epoch (step c s ch)) (g_epoch s)) as [Ee|Ne].
   - unfold einv. rewrite Ee. split; [exact Hp'|]. unfold step. destruct (g_panic s); [exact Hl|].
     destruct (g_panic (raw_step c s ch)); [eapply lab_same; [|exact Hl]; reflexivity | apply raw_step_lab; split; assumption].
@@ -500,7 +500,7 @@ Fixpoint bump_quiet (c : cfg) (y : sys) (sched : list ychoice) : Prop :=
 
 Lemma einv_init : einv init.
 Proof.
-  split; [constructor; cbn; try constructor; intros; try constructor; discriminate | constructor].
+  split; [constructor; cbn; [intros d l [] | intros k x [] | constructor | constructor] | constructor].
 Qed.
 
 Lemma einv_ystep c y ch : c_idem c = true -> einv (y_st y) ->
